@@ -141,6 +141,10 @@ def b_int(I, args, kw):
             return int(v)
         except ValueError:
             I.raise_("ValueError")
+    if isinstance(v, SStr):
+        t = v.term
+        if z3.is_app(t) and t.decl().name() == "STR_OF_INT":
+            return t.arg(0)  # int(str(n)) == n
     h = I.registry.hooks.get("int_of_str")
     if isinstance(v, SStr) and h is not None:
         return h(I, v)
@@ -740,6 +744,10 @@ def str_method(I, obj, name, args, kw):
             return SStr(term) if term is not None else ""
         if name == "format":
             return SStr(fresh_str("fmt"))
+    if name == "split" and isinstance(obj, SStr) and len(args) == 1 and isinstance(args[0], str) and args[0] == ".":
+        parts = split_dotted(I, obj.term)
+        if parts is not None:
+            return parts
     h = I.registry.hooks.get("str_method")
     if h is not None:
         r = h(I, obj, name, args, kw)
@@ -802,6 +810,35 @@ def sorted_slist(I, seq: SList, key):
     out = SList(n, lambda k: seq.elem(PI(Z(k))))
     out.perm = PI
     return out
+
+
+def split_dotted(I, term):
+    """s.split(".") for s = ".".join(str(n_i)): the decimal strings (canonical decimals contain no dot)."""
+    from .smt import str_lit
+    from .values import STRCAT
+
+    dot = str_lit(".")
+    parts = []
+
+    def is_num(t):
+        return z3.is_app(t) and t.decl().name() == "STR_OF_INT"
+
+    t = term
+    while True:
+        if is_num(t):
+            parts.append(SStr(t))
+            break
+        if not (z3.is_app(t) and t.decl().eq(STRCAT)):
+            return None
+        left, right = t.arg(0), t.arg(1)
+        if not is_num(right):
+            return None
+        parts.append(SStr(right))
+        if not (z3.is_app(left) and left.decl().eq(STRCAT) and left.arg(1).eq(dot)):
+            return None
+        t = left.arg(0)
+    parts.reverse()
+    return parts
 
 
 def list_method(I, obj, name, args, kw):
